@@ -557,7 +557,7 @@ def run_property(here, repo, prop, cfg, tier, seed, tmp, t0):
         for (a, b, name) in scan_lemmas(r["rs_text"]):
             if name in LEMMAS and (prop in LEMMAS[name][1] or prop == "ALL"):
                 lemma_obs.append({"obligation": LEMMAS[name][0], "kind": "spec-lemma", "function": name, "unit": u, "backend": "verus/z3",
-                                  "clause": "proof fn %s in contracts/spec_%s.rs (pure proof over the reference channel)" % (name, u)})
+                                  "clause": "proof fn %s in contracts/%s (pure proof over the contracts)" % (name, P.UNITS[u].get("static", "spec_%s.rs" % u))})
         rewrites += [dict(x, unit=u) for x in wmap["rewrites"]]
         uncontracted += [dict(x, unit=u) for x in wmap["uncontracted"]]
         try:
@@ -689,8 +689,12 @@ def scan_assumptions(results):
         k = txt.find("woven from the working tree (kweave)")
         woven = txt[k:] if k >= 0 else txt
         pre = txt[:k] if k >= 0 else ""
+        # the real code's own comments mention "assume init": scan code only (line comments removed)
+        woven = "\n".join(l.split("//")[0] for l in woven.splitlines())
         out[u] = {
-            "woven_text": {w: len(re.findall(r"\b%s\b" % re.escape(w), woven)) for w in ("assume", "admit", "external_body", "assume_specification")},
+            "woven_text": {"assume(": len(re.findall(r"\bassume\s*\(", woven)), "admit(": len(re.findall(r"\badmit\s*\(", woven)),
+                           "external_body": len(re.findall(r"\bexternal_body\b", woven)), "assume_specification": len(re.findall(r"\bassume_specification\b", woven)),
+                           "axiom_ calls (explicit, listed assumptions R5/R2/A2)": len(re.findall(r"\baxiom_\w+\s*\(", woven))},
             "trusted_prelude": {w: len(re.findall(r"\b%s\b" % re.escape(w), pre)) for w in ("assume", "admit", "external_body", "assume_specification", "uninterp")},
         }
     return out
